@@ -176,3 +176,151 @@ theorem fact_revocation_lookup_flow :
     Nuts.Facts.C01.flow_GetRevocations = flowGetRevocationsSrc := ⟨rfl, rfl, rfl⟩
 
 end Nuts.C01.Props
+
+namespace Nuts.C01.Props
+open Nuts.C01
+
+/-- what makes a revocation AUTHENTIC: it names a credential id `<issuer>#<fragment>`, is issued by that issuer, and its proof verifies
+    under a key that the issuer's DID document lists as assertion method at the revocation's date -/
+def Rev.Authentic (E : Env) (sigOK : Key → Rev → Bool) (r : Rev) : Prop :=
+  r.fragment ≠ "" ∧ r.issuer ≠ "" ∧ beforeHash r.subject = r.issuer ∧ beforeHash r.vm = r.issuer ∧ r.hasProof = true ∧
+  ∃ k, resolveKeyByID E (some r.date) r.vm = some k ∧ sigOK k r = true
+
+/-- one call: RegisterRevocation succeeds only for an authentic revocation, and then appends exactly it -/
+theorem registered_revocation_is_authentic (E : Env) (sigOK : Key → Rev → Bool) (storeOK : Bool) (store s' : List Rev) (r : Rev)
+    (h : registerRevocation E sigOK storeOK store r = .ok s') : s' = store ++ [r] ∧ Rev.Authentic E sigOK r := by
+  unfold registerRevocation at h
+  split at h; · cases h
+  split at h; · cases h
+  split at h; · cases h
+  split at h; · cases h
+  split at h; · cases h
+  split at h; · cases h
+  split at h; · cases h
+  rename_i h1 h2 h3 h4 h5 h6 h7
+  split at h
+  · cases h
+  · rename_i k hk
+    split at h; · cases h
+    split at h; · cases h
+    split at h; · cases h
+    rename_i h8 h9 h10
+    injection h with h
+    refine ⟨h.symm, ?_, ?_, ?_, ?_, ?_, k, hk, ?_⟩
+    · intro e; apply h1; simp [e]
+    · intro e; apply h3; simp [e]
+    · simpa using h6
+    · simpa using h7
+    · simpa using h5
+    · simpa using h9
+
+/-- INVARIANT over all histories of RegisterRevocation calls (any revocations, any store outcomes, any length): every stored
+    revocation is authentic, and it is one of the offered ones -/
+theorem stored_revocations_are_authentic (E : Env) (sigOK : Key → Rev → Bool) (calls : List (Rev × Bool)) (store : List Rev)
+    (hinv : ∀ r ∈ store, Rev.Authentic E sigOK r) :
+    ∀ r ∈ registerAll E sigOK store calls, Rev.Authentic E sigOK r ∧ (r ∈ store ∨ ∃ b, (r, b) ∈ calls) := by
+  induction calls generalizing store with
+  | nil => intro r hr; exact ⟨hinv r hr, Or.inl hr⟩
+  | cons c rest ih =>
+    obtain ⟨x, ok⟩ := c
+    intro r hr
+    unfold registerAll at hr
+    cases hreg : registerRevocation E sigOK ok store x with
+    | ok s' =>
+      rw [hreg] at hr
+      obtain ⟨hs, ha⟩ := registered_revocation_is_authentic E sigOK ok store s' x hreg
+      have hinv' : ∀ r ∈ s', Rev.Authentic E sigOK r := by
+        intro y hy; rw [hs] at hy
+        rcases List.mem_append.mp hy with h | h
+        · exact hinv y h
+        · simp at h; rw [h]; exact ha
+      obtain ⟨h1, h2⟩ := ih s' hinv' r hr
+      refine ⟨h1, ?_⟩
+      rcases h2 with h2 | ⟨b, h2⟩
+      · rw [hs] at h2
+        rcases List.mem_append.mp h2 with h | h
+        · exact Or.inl h
+        · simp at h; exact Or.inr ⟨ok, by rw [h]; exact List.mem_cons_self⟩
+      · exact Or.inr ⟨b, List.mem_cons_of_mem _ h2⟩
+    | err e =>
+      rw [hreg] at hr
+      obtain ⟨h1, h2⟩ := ih store hinv r hr
+      exact ⟨h1, h2.imp id (fun ⟨b, hb⟩ => ⟨b, List.mem_cons_of_mem _ hb⟩)⟩
+    | panic p =>
+      rw [hreg] at hr
+      obtain ⟨h1, h2⟩ := ih store hinv r hr
+      exact ⟨h1, h2.imp id (fun ⟨b, hb⟩ => ⟨b, List.mem_cons_of_mem _ hb⟩)⟩
+
+/-- registrations only ever ADD: whatever is offered later (authentic or not, store faults included), a stored revocation stays -/
+theorem registered_revocation_is_permanent (E : Env) (sigOK : Key → Rev → Bool) (calls : List (Rev × Bool)) (store : List Rev) (r : Rev)
+    (hr : r ∈ store) : r ∈ registerAll E sigOK store calls := by
+  induction calls generalizing store with
+  | nil => exact hr
+  | cons c rest ih =>
+    obtain ⟨x, ok⟩ := c
+    unfold registerAll
+    cases hreg : registerRevocation E sigOK ok store x with
+    | ok s' =>
+      simp only
+      apply ih
+      rw [(registered_revocation_is_authentic E sigOK ok store s' x hreg).1]
+      exact List.mem_append_left _ hr
+    | err e => exact ih store hr
+    | panic p => exact ih store hr
+
+/-- END TO END (history of registrations -> store query -> IsRevoked -> Verify): on a node whose revocation store was filled by ANY
+    history of RegisterRevocation calls, a credential is refused as "revoked" only if somebody holding an assertion key of the DID in
+    front of the '#' of its id signed a revocation for exactly that id — a third party cannot revoke -/
+theorem revoked_only_by_the_credential_issuer (E : Env) (sigOK : Key → Rev → Bool) (calls : List (Rev × Bool)) (id : String)
+    (h : isRevoked (getRevocations (findIn (registerAll E sigOK [] calls) id)) ≠ .no) :
+    ∃ r b, (r, b) ∈ calls ∧ r.subject = id ∧ Rev.Authentic E sigOK r ∧
+      ∃ k, resolveKeyByID E (some r.date) r.vm = some k ∧ beforeHash r.vm = beforeHash id ∧ sigOK k r = true := by
+  have hne : findIn (registerAll E sigOK [] calls) id ≠ .docs [] := fun e => h ((isRevoked_no_iff _).mpr e)
+  unfold findIn at hne
+  cases hf : (registerAll E sigOK [] calls).filter (fun r => r.subject == id) with
+  | nil => rw [hf] at hne; exact absurd rfl hne
+  | cons r rest =>
+    have hm : r ∈ (registerAll E sigOK [] calls).filter (fun r => r.subject == id) := by rw [hf]; exact List.mem_cons_self
+    obtain ⟨hmem, hsub⟩ := List.mem_filter.mp hm
+    have hsub' : r.subject = id := by simpa using hsub
+    obtain ⟨ha, hfrom⟩ := stored_revocations_are_authentic E sigOK calls [] (by intro r hr; cases hr) r hmem
+    rcases hfrom with hfrom | ⟨b, hb⟩
+    · cases hfrom
+    · have ha' := ha
+      obtain ⟨_, _, hs, hv, _, k, hk, hsig⟩ := ha'
+      exact ⟨r, b, hb, hsub', ha, k, hk, by rw [hv, ← hs, hsub'], hsig⟩
+
+/-- the store's own answers are never errors: everything in it went through StoreRevocation's marshal -/
+theorem findIn_never_errors (store : List Rev) (id : String) : isRevoked (getRevocations (findIn store id)) ≠ .error := by
+  intro h
+  rcases (isRevoked_error_iff _).mp h with h | ⟨ds, h, hm⟩
+  · cases h
+  · unfold findIn at h; injection h with h; rw [← h] at hm; simp at hm
+
+def exRev : Rev := { subject := "did:x:i#1", fragment := "1", hasContext := true, typeOK := true, issuer := "did:x:i", date := 1500,
+                     hasProof := true, vm := "did:x:i#k", proofDecodes := true }
+def exRevSig : Key → Rev → Bool := fun k r => k == "K1" && r.issuer == "did:x:i"
+-- non-vacuity: the issuer's revocation registers and blocks the example credential; a third party's does not
+example : registerRevocation exE2 exRevSig true [] exRev = .ok [exRev] := by decide
+example : registerRevocation exE2 exRevSig true [] { exRev with issuer := "did:x:i2", vm := "did:x:i2#k" } = .err "issuer-not-credential-issuer" := by decide
+example : registerRevocation exE2 exRevSig true [] { exRev with vm := "did:x:i2#k" } = .err "vm-not-of-issuer" := by decide
+example : registerRevocation exE2 (fun _ _ => false) true [] exRev = .err "bad-signature" := by decide
+example : isRevoked (getRevocations (findIn (registerAll exE2 exRevSig [] [({ exRev with vm := "did:x:i2#k" }, true), (exRev, false), (exRev, true)]) "did:x:i#1")) = .yes := by decide
+example : isRevoked (getRevocations (findIn (registerAll exE2 exRevSig [] [({ exRev with vm := "did:x:i2#k" }, true), (exRev, false)]) "did:x:i#1")) = .no := by decide
+
+/-- the return sequence of RegisterRevocation and the complete control flow of ValidateRevocation, regenerated from the source, are
+    the guards of the model's `registerRevocation` in the same order -/
+theorem fact_register_revocation_sequence :
+    Nuts.Facts.C01.registerRevocationReturns = registerRevocationReturnsSrc ∧
+    Nuts.Facts.C01.flow_ValidateRevocation =
+      [ "if r.Subject.String() == \"\" || r.Subject.Fragment == \"\"", "return fmt.Errorf(\"%w: 'subject' is required and requires a valid fragment\",errValidation)",
+        "if len(r.Context) != 0", "foundType := false", "range r.Type", "if val == RevocationType", "foundType = true", "break",
+        "if !foundType", "return fmt.Errorf(\"%w: 'type' does not contain %s\",errValidation,RevocationType)",
+        "if r.Issuer.String() == \"\"", "return fmt.Errorf(\"%w: 'issuer' is required\",errValidation)",
+        "if r.Date.IsZero()", "return fmt.Errorf(\"%w: 'date' is required\",errValidation)",
+        "if r.Proof == nil", "return fmt.Errorf(\"%w: 'proof' is required\",errValidation)", "return nil" ] ∧
+    Nuts.Facts.C01.registerRevocationSplits =
+      [ "subjectIssuer := strings.Split(subject,\"#\")[0]", "vmIssuer := strings.Split(vm,\"#\")[0]", "subject := revocation.Subject.String()",
+        "vm := revocation.Proof.VerificationMethod.String()", "metadata := &resolver.ResolveMetadata{} ResolveTime: &revocation.Date" ] := ⟨rfl, rfl, rfl⟩
+
+end Nuts.C01.Props
